@@ -534,8 +534,12 @@ def call_c18(case):
         except BaseException as e:  # noqa
             return [], type(e).__name__
 
+    import re as _re2
+
     def plain(s):
         low = s.lower()
+        if _re2.search(r"\d+\.\s?\d+\.\s?\d+\.", _re2.sub(r"[\t\n\r\xa0]", " ", s)):
+            return False          # the Croatian-date rule of sanitize_date is not part of the class model
         return not any(x in low for x in ("г", "on:", " u", "»", "‎", "‏", "\xb7", "َ", "ُ", ",")) and "?" not in _cls(s) \
             and not any(ch in s for ch in "’ʼʻ՚ꞌ′‵ʹ＇")
 
